@@ -14,7 +14,7 @@ for sid in sys.argv[1:]:
     wt = "/tmp/seedwt/%s" % sid
     sh("git -C /repo worktree remove --force %s" % wt)
     os.makedirs("/tmp/seedwt", exist_ok=True)
-    r = sh("git -C /repo worktree add -q %s HEAD && git -C %s apply %s/patch.diff" % (wt, wt, d))
+    r = sh("git -C /repo worktree add -q %s HEAD && cp /repo/Cargo.lock %s/ && git -C %s apply %s/patch.diff" % (wt, wt, wt, d))
     if r.returncode != 0:
         print(sid, "cannot apply:", r.stdout[-300:]); continue
     env = dict(os.environ, VERIF_REPO=wt, VERIF_EVIDENCE="/tmp/seedwt/evidence-%s" % sid, VERIF_REPLAYS="/tmp/seedwt/replays-%s" % sid,
